@@ -1,20 +1,71 @@
 (* GenAgree/Crop.v — translator tie for C09.  The methods reversed / split /
-   cropped themselves construct objects (outside the translator's subset, see
-   tools/py2v_tables/c09.py); what DOES translate are the functions they are
-   made of: Line.point, X.bpoints and bezier.split_bezier (groups GenBezierSeg,
-   GenBezierN, regenerated from /repo on every run).  The lemmas below state the
-   hand models of Model/Crop.v in terms of those generated definitions, so a
-   change of Line.point / split_bezier / bpoints in /repo breaks them.
+   cropped construct objects; tools/py2v.py renders a constructor call as the
+   tuple of the constructor's arguments, so group GenCrop (tools/py2v_tables/c09.py)
+   translates Line.cropped/split/reversed, Quadratic/CubicBezier.reversed/split,
+   Arc.reversed and Arc.cropped (only crop_bezier — symbolic t-branching and the
+   radialrange oracle — stays outside).  Part 1 proves the generated definitions
+   equal to the hand models of Model/Crop.v / Model/CropArc.v; part 2 (older)
+   states the hand models in terms of the generated building blocks Line.point,
+   X.bpoints, bezier.split_bezier (groups GenBezierSeg, GenBezierN).  Everything
+   is regenerated from /repo and recompiled on every run.
    Compiled lemma by lemma (split on the AGREE markers). *)
 From Coq Require Import ZArith List Bool Field.
 From SVP Require Import Base.Num Base.Cplx Base.Poly Base.FieldTac Base.Agree Base.FieldTac2
-     Model.Bezier Model.Crop.
-From SVP Require Import Gen.GenBezierSeg Gen.GenBezierN.
+     Model.Bezier Model.Arc Model.Crop Model.CropArc.
+From SVP Require Import Gen.GenBezierSeg Gen.GenBezierN Gen.GenCrop.
 Import ListNotations.
 Section A.
-Context {K : Type} (N : Num K) (OK : NumFieldOK N).
+Context {K : Type} (N : Num K) (OK : NumFieldOK N) (T : NumT K).
 Add Field KF : (Fth OK).
 (* HEADER END *)
+
+(* ---------------- part 1: the methods themselves ---------------- *)
+(* AGREE gen_Line_cropped *)
+Lemma agree_gen_Line_cropped s e t0 t1 : gen_Line_cropped N s e t0 t1 = line_cropped N s e t0 t1.
+Proof. agree_ring. Qed.
+(* AGREE gen_Line_split *)
+Lemma agree_gen_Line_split s e t : gen_Line_split N s e t = line_split N s e t.
+Proof. agree_ring. Qed.
+(* AGREE gen_Line_reversed *)
+Lemma agree_gen_Line_reversed s e : gen_Line_reversed N s e = line_reversed s e.
+Proof. destruct s, e. reflexivity. Qed.
+(* AGREE gen_Quad_reversed *)
+Lemma agree_gen_Quad_reversed s c e : gen_Quad_reversed N s c e = quad_reversed s c e.
+Proof. destruct s, c, e. reflexivity. Qed.
+(* AGREE gen_Cubic_reversed *)
+Lemma agree_gen_Cubic_reversed s c1 c2 e : gen_Cubic_reversed N s c1 c2 e = cubic_reversed s c1 c2 e.
+Proof. destruct s, c1, c2, e. reflexivity. Qed.
+(* AGREE gen_Quad_split *)
+(* QuadraticBezier.split: the two objects' constructor arguments are the control polygons of bez_split *)
+Lemma agree_gen_Quad_split s c e t :
+  (let '((a, b, d), (a', b', d')) := gen_Quad_split N s c e t in ([a; b; d], [a'; b'; d']))
+  = bez_split N [s; c; e] t.
+Proof. unfold bez_split. ring_lin N OK. Qed.
+(* AGREE gen_Cubic_split *)
+Lemma agree_gen_Cubic_split s c1 c2 e t :
+  (let '((a, b, d, f), (a', b', d', f')) := gen_Cubic_split N s c1 c2 e t in ([a; b; d; f], [a'; b'; d'; f']))
+  = bez_split N [s; c1; c2; e] t.
+Proof. unfold bez_split. ring_lin N OK. Qed.
+(* AGREE gen_Arc_reversed *)
+(* Arc.reversed: Arc(end, radius, rotation, large_arc, not sweep, start), for the object's stored attributes *)
+Lemma agree_gen_Arc_reversed start radius rotation large sweep end_ center theta delta phi rot :
+  gen_Arc_reversed N start radius rotation large sweep end_ center theta delta phi rot
+  = arc_reversed_args (mkArcP start radius rotation large sweep end_ center theta delta phi rot).
+Proof. destruct start, radius, end_. reflexivity. Qed.
+(* AGREE gen_Arc_cropped *)
+(* Arc.cropped: constructor arguments (point(t0), radius, rotation, flag rule, sweep, point(t1)) with
+   point() inlined = arc_cropped_args over Model/Arc.v's arc_point, for ANY carrier and ANY NumT *)
+Lemma agree_gen_Arc_cropped start radius rotation large sweep end_ center theta delta phi rot t0 t1 :
+  gen_Arc_cropped N T start radius rotation large sweep end_ center theta delta phi rot t0 t1
+  = arc_cropped_args N T (mkArcP start radius rotation large sweep end_ center theta delta phi rot) t0 t1.
+Proof.
+  destruct radius, center, rot.
+  unfold gen_Arc_cropped, arc_cropped_args, arc_crop_large, arc_point, d180.
+  cbn [a_start a_radius a_rotation a_large a_sweep a_end a_center a_theta a_delta a_phi a_rot re im fst snd].
+  destruct (leb N (nabs N (mul N delta (sub N t1 t0))) (lit N 180)); reflexivity.
+Qed.
+
+(* ---------------- part 2: the models over the generated building blocks ---------------- *)
 
 (* AGREE gen_Line_point *)
 (* Line.cropped = Line(self.point(t0), self.point(t1)); Line.split = Line(start, pt), Line(pt, end) *)
